@@ -107,8 +107,7 @@ class V1Parser:
         if proxyStr != cls.PROXYSTR:
             raise InvalidProxyHeader()
 
-        with convertError(ValueError, InvalidNetworkProtocol):
-            networkProtocol, line = line.split(b" ", 1)
+        networkProtocol, _, line = line.partition(b" ")
 
         if networkProtocol not in cls.ALLOWED_NET_PROTOS:
             raise InvalidNetworkProtocol()
